@@ -399,6 +399,13 @@ def r4_history_time_units(ctx, rid):
             cands = [g for g in f.nested.values() if any(isinstance(c, ast.Call) and call_name(c) == "update" for c in ast.walk(g.node))]
             so = cands[0] if len(cands) == 1 else None
         if so is None:
+            outer_ups = [c for c in walk_shallow(f.node) if isinstance(c, ast.Call) and call_name(c) == "update" and isinstance(c.func, ast.Attribute)]
+            if not reg and outer_ups:
+                # positive reason: the history is fed by the wrapper's own loop over the OUTPUT times, no per-step callback is registered
+                ctx.violation(rid, f, outer_ups[0], "the history is fed only where the wrapper asks the integrator for output (no per-step callback is "
+                                                    "registered with set_solout): between two output times delayed terms read a stale / coarsely "
+                                                    "interpolated past, so results depend on the sampling step", label="set_solout")
+                continue
             raise AnalysisError(f"{rid}: {f.qual}: no nested callback that feeds the history (set_solout argument) found")
         ups = [c for c in ast.walk(so.node) if isinstance(c, ast.Call) and call_name(c) == "update"]
         params = so.params
